@@ -14,9 +14,125 @@ open Osmium.PbfSpec (Choices)
 def BoxRep (b : Location × Location) : Prop :=
   Location.isValid b.1 = true ∧ Location.isValid b.2 = true ∧ b.1.x ≤ b.2.x ∧ b.1.y ≤ b.2.y
 
+theorem spec_hdr_unknown (s : Header) (f : Field) (h : headerKnown f = false) : headerStep s f = some s := by
+  obtain ⟨tag, wt, val, payload⟩ := f
+  unfold headerStep
+  simp only [headerKnown] at h
+  split <;> simp_all
+
+theorem spec_hdr_commutes : CommutesOn headerStep (fun _ => True) := by
+  intro s f g _ _ hk
+  obtain ⟨t1, w1, v1, p1⟩ := f
+  obtain ⟨t2, w2, v2, p2⟩ := g
+  simp only [key, ne_eq, Prod.mk.injEq, not_and] at hk
+  unfold headerStep
+  split <;> split <;> (try (simp_all; done))
+  all_goals (cases decodeBBox p1 <;> cases decodeBBox p2 <;> cases featureOk p1 <;> cases featureOk p2 <;> simp)
+  all_goals (try (split <;> rfl))
+
+/-- one HeaderBBox message of the specification encoder -/
+theorem spec_hdr_bbox (ch : Choices) (hch : ChoicesOk ch) (b : Location × Location) (hb : BoxRep b) :
+    decodeBBox (PbfSpec.msg ch PbfSpec.kHeaderBBox [PbfSpec.fSInt 1 (100 * b.1.x), PbfSpec.fSInt 2 (100 * b.2.x),
+      PbfSpec.fSInt 3 (100 * b.2.y), PbfSpec.fSInt 4 (100 * b.1.y)]) = some b := by
+  obtain ⟨bl, tr⟩ := b
+  obtain ⟨h1, h2, hx, hy⟩ := hb
+  simp only at h1 h2 hx hy ⊢
+  have v1 := (isValid_iff bl).mp h1
+  have v2 := (isValid_iff tr).mp h2
+  have r : ∀ c : Int, -1800000000 ≤ c → c ≤ 1800000000 → zigzag64 (c * 100) < 2 ^ 64 := fun c a b =>
+    zigzag64_lt _ (by simp only [Int.reducePow]; omega) (by simp only [Int.reducePow]; omega)
+  have wf : ∀ f ∈ [fVarint 1 (zigzag64 (bl.x * 100)), fVarint 2 (zigzag64 (tr.x * 100)),
+                    fVarint 3 (zigzag64 (tr.y * 100)), fVarint 4 (zigzag64 (bl.y * 100))], f.WF := by
+    intro f hf
+    simp only [List.mem_cons, List.not_mem_nil, or_false] at hf
+    rcases hf with rfl | rfl | rfl | rfl <;> apply wf_varint _ _ (by decide) (by decide) <;> apply r <;> omega
+  have henc := decodeBBox_enc bl tr h1 h2 hx hy
+  unfold decodeBBox withFields at henc
+  rw [readFields_encodeFields _ wf] at henc
+  simp only [spec_fSInt, Int.mul_comm 100]
+  unfold decodeBBox withFields
+  rw [readFields_msg ch PbfSpec.kHeaderBBox _ wf (hch.extrasWF PbfSpec.kHeaderBBox)]
+  simp only
+  rw [decodeMsg_arrange' bboxStep bboxKnown bboxStep_unknown bboxStep_commutes ch PbfSpec.kHeaderBBox _ _
+    (hch.extrasUnknown PbfSpec.kHeaderBBox)]
+  exact henc
+
+/-- the bounding boxes, from any header so far -/
+theorem spec_hdr_boxes (ch : Choices) (hch : ChoicesOk ch) : ∀ (boxes : List (Location × Location)) (hd : Header),
+    (∀ b ∈ boxes, BoxRep b) →
+    decodeMsg headerStep hd (boxes.map fun b => PbfSpec.fBytes 1 (PbfSpec.msg ch PbfSpec.kHeaderBBox
+      [PbfSpec.fSInt 1 (100 * b.1.x), PbfSpec.fSInt 2 (100 * b.2.x), PbfSpec.fSInt 3 (100 * b.2.y),
+       PbfSpec.fSInt 4 (100 * b.1.y)])) = some { hd with boxes := hd.boxes ++ boxes }
+  | [], hd, _ => by simp [decodeMsg]
+  | b :: bs, hd, hb => by
+    have h1 := spec_hdr_bbox ch hch b (hb b (List.mem_cons_self))
+    have ih := spec_hdr_boxes ch hch bs { hd with boxes := hd.boxes ++ [b] } (fun c hc => hb c (List.mem_cons_of_mem _ hc))
+    unfold decodeMsg at ih ⊢
+    rw [List.map_cons, foldlM_cons']
+    have hs : headerStep hd (PbfSpec.fBytes 1 (PbfSpec.msg ch PbfSpec.kHeaderBBox
+        [PbfSpec.fSInt 1 (100 * b.1.x), PbfSpec.fSInt 2 (100 * b.2.x), PbfSpec.fSInt 3 (100 * b.2.y),
+         PbfSpec.fSInt 4 (100 * b.1.y)])) = some { hd with boxes := hd.boxes ++ [b] } := by
+      simp only [headerStep, PbfSpec.fBytes, h1, Option.map_some]
+    rw [hs, Option.bind_some, ih]
+    simp
+
+/-- the canonical field list of the HeaderBlock -/
+def spec_hdr_fields (ch : Choices) (h : Header) : List Field :=
+  (h.boxes.map fun b => PbfSpec.fBytes 1 (PbfSpec.msg ch PbfSpec.kHeaderBBox
+    [PbfSpec.fSInt 1 (100 * b.1.x), PbfSpec.fSInt 2 (100 * b.2.x), PbfSpec.fSInt 3 (100 * b.2.y),
+     PbfSpec.fSInt 4 (100 * b.1.y)])) ++
+  [PbfSpec.fBytes 4 "OsmSchema-V0.6".toUTF8.toList] ++
+  (if ch.dense then [PbfSpec.fBytes 4 "DenseNodes".toUTF8.toList] else []) ++
+  (if h.multipleVersions then [PbfSpec.fBytes 4 "HistoricalInformation".toUTF8.toList] else []) ++
+  [PbfSpec.fBytes 16 h.generator]
+
+theorem spec_hdr_msg (ch : Choices) (h : Header) :
+    PbfSpec.headerMsg ch h = PbfSpec.msg ch PbfSpec.kHeaderBlock (spec_hdr_fields ch h) := rfl
+
+theorem spec_hdr_shape (ch : Choices) (h : Header) (f : Field) (hf : f ∈ spec_hdr_fields ch h) :
+    ∃ tag p, f = fBytes tag p ∧ 0 < tag ∧ tag < 17 := by
+  unfold spec_hdr_fields at hf
+  simp only [List.mem_append, List.mem_map, List.mem_singleton] at hf
+  rcases hf with (((⟨b, _, rfl⟩ | rfl) | hf) | hf) | rfl
+  · exact ⟨1, _, rfl, by decide, by decide⟩
+  · exact ⟨4, _, rfl, by decide, by decide⟩
+  · split at hf
+    · rw [List.mem_singleton] at hf; subst hf; exact ⟨4, _, rfl, by decide, by decide⟩
+    · simp at hf
+  · split at hf
+    · rw [List.mem_singleton] at hf; subst hf; exact ⟨4, _, rfl, by decide, by decide⟩
+    · simp at hf
+  · exact ⟨16, _, rfl, by decide, by decide⟩
+
+theorem spec_hdr_wf (ch : Choices) (h : Header) (hlen : (PbfSpec.headerMsg ch h).length < 2 ^ 32) :
+    ∀ f ∈ spec_hdr_fields ch h, f.WF := by
+  intro f hf
+  obtain ⟨tag, p, rfl, h0, h1⟩ := spec_hdr_shape ch h f hf
+  have := payload_le_msg ch PbfSpec.kHeaderBlock _ _ hf rfl
+  rw [← spec_hdr_msg] at this
+  exact wf_bytes tag p h0 h1 (by simp only [fBytes] at this; omega)
+
+/-- the decoder loop over the canonical field list -/
+theorem spec_hdr_canon (ch : Choices) (hch : ChoicesOk ch) (h : Header) (hb : ∀ b ∈ h.boxes, BoxRep b) :
+    decodeMsg headerStep {} (spec_hdr_fields ch h) = some h := by
+  have f1 : featureOk "OsmSchema-V0.6".toByteArray.toList = some false := by decide +kernel
+  have f2 : featureOk "DenseNodes".toByteArray.toList = some false := by decide +kernel
+  have f3 : featureOk "HistoricalInformation".toByteArray.toList = some true := by decide +kernel
+  unfold spec_hdr_fields
+  simp only [List.append_assoc]
+  rw [decodeMsg_append, spec_hdr_boxes ch hch h.boxes {} hb, Option.bind_some]
+  obtain ⟨gen, boxes, mv⟩ := h
+  cases hd : ch.dense <;> cases mv <;>
+    simp [decodeMsg, headerStep, PbfSpec.fBytes, f1, f2, f3]
+
 theorem spec_header (ch : Choices) (hch : ChoicesOk ch) (h : Header) (hb : ∀ b ∈ h.boxes, BoxRep b)
     (hlen : (PbfSpec.headerMsg ch h).length < 2 ^ 32) :
     withFields (PbfSpec.headerMsg ch h) (fun fs => decodeMsg headerStep {} fs) = some h := by
-  sorry
+  unfold withFields
+  rw [spec_hdr_msg, readFields_msg ch PbfSpec.kHeaderBlock _ (spec_hdr_wf ch h hlen) (hch.extrasWF PbfSpec.kHeaderBlock)]
+  simp only
+  rw [decodeMsg_arrange' headerStep headerKnown spec_hdr_unknown spec_hdr_commutes ch PbfSpec.kHeaderBlock _ _
+    (hch.extrasUnknown PbfSpec.kHeaderBlock)]
+  exact spec_hdr_canon ch hch h hb
 
 end Osmium.Pbf
